@@ -6,15 +6,15 @@ import "context"
 // model of the reference count and the three reset flags (publish connector).
 type vShareModel struct {
 	resetErr, resetComp, resetZero bool
-	connected    bool // a subject exists and is bound to an upstream execution
-	upLive       bool // the upstream subscription is live
-	term         int  // terminal kept by a subject that was not reset (0 none)
-	upSubs       int
-	cur          int // number of the current upstream execution
-	subs         []*vModelSub
-	conn         []int // per subscriber: the execution it joined
-	armed        int   // the next upstream execution terminates synchronously inside its subscribe
-	connBy       []int // per upstream execution: the subscriber whose subscription started it
+	connected                      bool // a subject exists and is bound to an upstream execution
+	upLive                         bool // the upstream subscription is live
+	term                           int  // terminal kept by a subject that was not reset (0 none)
+	upSubs                         int
+	cur                            int // number of the current upstream execution
+	subs                           []*vModelSub
+	conn                           []int // per subscriber: the execution it joined
+	armed                          int   // the next upstream execution terminates synchronously inside its subscribe
+	connBy                         []int // per upstream execution: the subscriber whose subscription started it
 }
 
 func (m *vShareModel) active() int {
